@@ -558,6 +558,7 @@ func parseC17(a args) {
 		W      []int   `json:"w"`
 		Root   int     `json:"root"`
 		Mcalls int     `json:"mcalls"`
+		Exp    bool    `json:"exp"`
 	}
 	built := map[string]*builtG{}
 	prev := map[string]int{}
@@ -570,7 +571,8 @@ func parseC17(a args) {
 		}
 		b, ok := built[c.Fam]
 		if !ok {
-			t := &tracer{quiet: true, budget: 1 << 30}
+			// noIndex: no Memoize of the harness' own runs before the measured grammar (the process is cold)
+			t := &tracer{quiet: true, budget: 1 << 30, noIndex: true}
 			b = &builtG{t: t, ps: build(c.G, t)}
 			built[c.Fam] = b
 		}
@@ -578,11 +580,12 @@ func parseC17(a args) {
 			return // a smaller size of this family was already stopped: the judge has its verdict, larger sizes would only burn time
 		}
 		content := bytesOf(c.W)
-		// a run that needs more than 40x the calls of the largest smaller size of its family is stopped: its count
+		// a run that needs more than 16x the calls of the previous (half) size of its family is stopped: its count
 		// is then already beyond what the doubling predicate allows, and the judge will say so
-		limit := 0
-		if prev[c.Fam] > 0 && c.N >= 8 {
-			limit = 40 * prev[c.Fam]
+		// (sizes below the judged range only get an absolute cap, far above what any of the families needs there)
+		limit := 200000
+		if prev[c.Fam] > 0 && c.N >= 16 {
+			limit = 16*prev[c.Fam] + 64
 		}
 		abortedNow := false
 		run := func() (calls int, ok bool) {
@@ -595,14 +598,14 @@ func parseC17(a args) {
 					if _, isBig := r.(tooBig); !isBig {
 						panic(r)
 					}
-					calls, ok = ctx.CallCount(), true
+					calls, ok = ctx.CallCount(), c.Exp
 					abortedNow = true
 				}
 			}()
 			node, _, err := b.ps[c.Root-1].Parse(ctx, data.EmptyIntMap, f.Pos(0))
 			return ctx.CallCount(), node != nil && err == nil
 		}
-		e := J{"fam": c.Fam, "n": c.N, "mcalls": c.Mcalls}
+		e := J{"fam": c.Fam, "n": c.N, "mcalls": c.Mcalls, "exp": c.Exp}
 		if m := safely(func() {
 			c1, ok1 := run()
 			c2, ok2 := run()
